@@ -17,6 +17,7 @@ func main() {
 	debug := flag.Bool("debug", false, "debug output")
 	solver := flag.String("solver", "z3", "z3|z3-new|cvc5")
 	only := flag.String("only", "", "only harnesses whose name contains this")
+	budget := flag.Float64("budget", 0, "per-harness wall-clock budget in seconds (0 = tier default)")
 	flag.Parse()
 	if t := os.Getenv("VERIF_TIER"); t == "quick" || t == "thorough" {
 		if !flagSet("tier") {
@@ -40,6 +41,13 @@ func main() {
 	e.debug = *debug
 	e.solverKind = *solver
 	e.only = *only
+	e.budgetS = *budget
+	if e.budgetS == 0 {
+		e.budgetS = 420
+		if *tier == "thorough" {
+			e.budgetS = 2400
+		}
+	}
 	if *logDir != "" {
 		os.MkdirAll(*logDir, 0755)
 	}
